@@ -310,3 +310,52 @@ theorem C16_contract_tie :
   refine ⟨?_, ?_, ?_, ?_⟩ <;> rfl
 
 end Layer.Valset
+
+namespace Layer.Valset
+
+theorem foldl_max_ge_init (l : List Nat) (a : Nat) : a ≤ l.foldl max a := by
+  induction l generalizing a with
+  | nil => exact Nat.le_refl a
+  | cons x xs ih => exact Nat.le_trans (Nat.le_max_left a x) (ih (max a x))
+
+theorem foldl_max_ge_mem (l : List Nat) (a x : Nat) (h : x ∈ l) : x ≤ l.foldl max a := by
+  induction l generalizing a with
+  | nil => cases h
+  | cons y ys ih =>
+    rcases List.mem_cons.mp h with rfl | hm
+    · exact Nat.le_trans (Nat.le_max_right a x) (foldl_max_ge_init ys (max a x))
+    · exact ih (max a y) hm
+
+/-- **C16 / C02 (the bridge end blocker cannot fail).** Whenever a set is saved there is a checkpoint with a positive timestamp
+not later than the block (the chain invariant gives that), and then the end blocker returns a state for every staking validator
+list — including the list in which no bonded validator has registered an EVM address (fix cae414c). -/
+theorem C16_endblock_total (s : St) (vals : List SVal) (blockMs : Nat)
+    (h : s.saved.isSome = true → ∃ k ∈ s.ckpts, 0 < k.ts ∧ k.ts ≤ blockMs) : (endBlock s vals blockMs).isSome = true := by
+  unfold endBlock
+  cases hc : currentSet vals with
+  | none => rfl
+  | some cur =>
+    simp only []
+    cases hs : s.saved with
+    | none => rfl
+    | some last =>
+      simp only []
+      obtain ⟨k, hk, hpos, hle⟩ := h (by simp [hs])
+      have hst : (stale s blockMs).isSome = true := by
+        unfold stale
+        simp only []
+        have hmem : k.ts ∈ ((s.ckpts.filter (fun c => (c.ts : Int) < (blockMs : Int) + 1000)).map (·.ts)) := by
+          apply List.mem_map.mpr
+          exact ⟨k, List.mem_filter.mpr ⟨hk, by simp; omega⟩, rfl⟩
+        have hge := foldl_max_ge_mem _ 0 k.ts hmem
+        have hne : tsBefore s ((blockMs : Int) + 1000) ≠ 0 := by unfold tsBefore; omega
+        simp [hne]
+      cases hsv : stale s blockMs with
+      | none => simp [hsv] at hst
+      | some b =>
+        simp only []
+        split
+        · rfl
+        · split <;> rfl
+
+end Layer.Valset
